@@ -1,4 +1,5 @@
 """C11 — all views of one Regex tell the same story (no oracle)."""
+import zlib
 from props import corpus
 from props.common import mk, alpha_for, bounds
 
@@ -12,7 +13,7 @@ def items(tier):
     out = []
     maxL = 3 if tier == "quick" else 4
     for p, strat, tags in corpus.entries(tier):
-        for L in ([] if corpus.windows_only(tags, tier) else [maxL] if tier == "quick" else corpus.lengths(tags, tier, maxL)):
+        for L in ([] if corpus.windows_only(tags, tier) else [maxL] if tier == "quick" else [x for x in corpus.lengths(tags, tier, maxL) if x < 4 or zlib.crc32(p.encode()) % 3 == 0]):
             out.append(mk("C11", p, "basic", L, "", strategy=strat))
         for pre, post in corpus.windows(p):
             # windows of patterns with any-char constructs: well-formed UTF-8 only (the ill-formed-UTF-8 defect class is
